@@ -38,13 +38,17 @@ LEVEL_NOTE = (
 )
 PREIMPORT = ("pharmpy.modeling", "pharmpy.tools")
 RULE = (
-    "union of completely enumerated sub-spaces: (T) single table files: ext tables over all header forms x "
-    "special-row sets x every alphabet assignment to a small grid, phi tables over individuals x all-zero masks "
-    "x ETA/PHI naming x eta counts, cov-type tables over fixed-parameter masks, $TABLE files over title/label/"
-    "repeated-header/multi-table layouts; (D) run directories: parameter configurations (thetas x omega "
-    "structure x sigma structure x fixed-unit subsets x naming) x {matrix-file subsets, special-row sets, "
-    "value rotations, estimation steps, phi variants, $TABLE variants, covariance matrices}; a case is "
-    "non-trivial when the reader accepted the input and at least one value was compared"
+    "union of completely enumerated sub-spaces: (T) single files: ext tables over all TABLE NO. header forms x "
+    "special-row sets (-1000000000..-1000000008) x iteration lists x OBJ column names x fixed masks x every "
+    "alphabet assignment to a small grid; phi tables over 1-4 etas x 1-3 individuals x all-zero masks x "
+    "ETA/PHI naming; cov/cor/coi tables over every estimated/fixed mask of 9 labels and 5x4 positive definite "
+    "matrices; $TABLE files over title/label/repeated-label/multi-table layouts; the 8 matrix conversion "
+    "functions on the matrix alphabet; (D) run directories (control stream + ext + lst + phi + cov/cor/coi + "
+    "table file): parameter configurations (thetas x omega structure x sigma structure x fixed-unit subsets x "
+    "naming) x {every subset of matrix files, special-row sets, value rotations, 0-2 estimation steps, phi "
+    "variants with/without MU referencing, $TABLE variants, covariance matrices}; a case is non-trivial when "
+    "the reader accepted the input and at least one value was compared; states = files/directories read, "
+    "transitions = render+read steps, evaluations = values compared"
 )
 ASSUMPTIONS = [
     "numbers use the documented 2-digit-exponent fields (1PE13.5, 1PE12.4, 17-significant-digit OBJ); the "
